@@ -170,6 +170,9 @@ def _lint_file_worker(args: tuple[Path, Path, dict]) -> list[dict]:
         violations = orchestrator.lint_file(file_path)
         # Convert to dicts for pickling
         return [v.to_dict() for v in violations]
+    except ValueError:
+        # Configuration validation errors are user-facing: the parent reports them like a sequential run
+        raise
     except Exception:
         logger.exception("Worker error processing file: %s", file_path)
         return []
@@ -419,6 +422,9 @@ class Orchestrator:  # thailint: ignore[srp]
         """Extract violations from a completed future, handling errors."""
         try:
             return [Violation.from_dict(d) for d in future.result()]
+        except ValueError:
+            # Re-raise configuration validation errors from the worker (these are user-facing)
+            raise
         except Exception:
             logger.exception("Error extracting violations from worker future")
             return []
